@@ -79,31 +79,36 @@ Proof. intros R. apply (GM _ (proj1 (inv_reach s R))). Qed.
 Theorem head_report_claims s : Reach s -> bad_head s = false.
 Proof. intros R. apply (GM _ (proj1 (inv_reach s R))). Qed.
 
-(* the same, spelled out at the producer's read of the consumer position *)
-Theorem head_report s p s' : Reach s -> qp (P s p) = Q3 -> step s (PStep p) = Some s' ->
+(* the same, spelled out at the producer's read of the consumer position (r is the flag push returns).
+   Since the read precedes the `prev.next` store, the own entry is always unconsumed here and `prev` is still a
+   chain member, hence neither freed nor re-allocated: comparing addresses is comparing node identities. *)
+Theorem head_report s p s' : Reach s -> qp (P s p) = Q2 -> step s (PStep p) = Some s' ->
   let x := P s p in let n := qn x in let r := qhead (P s' p) in
-  (* a *) (qempty x = true -> cons (nd s n) = 0 -> r = true) /\
-  (* b *) (r = false -> qempty x = false \/ cons (nd s n) = 1) /\
-  (* c *) (r = true -> cons (nd s n) = 0 /\ inch (nd s n) = true /\ forall m, 1 <= m -> m < n -> cons (nd s m) = 1) /\
+  (* the own entry is an unconsumed chain member, prev is a chain member that has not been freed *)
+  (cons (nd s n) = 0 /\ inch (nd s n) = true /\ inch (nd s (qprev x)) = true /\ freed (nd s (qprev x)) = false) /\
+  (* a *) (qempty x = true -> r = true) /\
+  (* b *) (r = false -> qempty x = false) /\
+  (* c *) (r = true -> forall m, 1 <= m -> m < n -> cons (nd s m) = 1) /\
   (* d *) (qclk x = kclock s -> r = qempty x).
 Proof.
   intros R Eq H. assert (R' : Reach s') by (eapply RS; eauto).
   pose proof (head_report_claims s' R') as Hb. pose proof (head_report_claims s R) as Hb0.
-  destruct (inv_reach s R) as (Hi & _). pfacts Hi p. cbn in Hp4.
+  destruct (inv_reach s R) as (Hi & H2). pfacts Hi p. cbn in Hp4. destruct (Hp8 ltac:(lia)) as (Hn1 & Hn2 & Hn3 & Hn4).
   unfold step in H. rewrite Eq in H. inv_some. cbn in Hb. rewrite Hb0 in Hb. cbn in Hb.
   apply negb_false_iff in Hb. apply andb_prop in Hb. destruct Hb as (Hb & cD). apply andb_prop in Hb. destruct Hb as (cA & cC).
   cbn. rewrite upd_eq. cbn.
   set (n := qn (P s p)) in *. set (a := qprev (P s p)) in *.
-  assert (Hc1 : cons (nd s n) <= 1) by (apply consumed_at_most_once; assumption).
-  repeat split.
-  - intros He Hc. rewrite He, Hc in cA. cbn in cA. exact cA.
-  - intros Hr. rewrite Hr in cA. destruct (qempty (P s p)); auto. right.
-    destruct (cons (nd s n)) as [|[|k]] eqn:Ec; auto; [cbn in cA; discriminate | lia].
-  - rewrite H in cC. cbn in cC. bools. assumption.
-  - rewrite H in cC. cbn in cC. bools. assumption.
-  - intros m L1 L2. rewrite H in cC. cbn in cC. bools.
-    assert (Hnt : n <> tail s) by lia.
-    match goal with Hin : inch (nodes s n) = true |- _ => destruct (NI _ Hi n Hin Hnt) as (_&_&x3&_) end. destruct (N8 _ Hi) as (n8 & _).
+  destruct (G1 _ Hi) as (_&_&g3&_).
+  assert (Hat : tail s <= a) by (destruct (G3 _ Hi a Hn3); lia).
+  assert (Hnt : n <> tail s) by lia.
+  destruct (NI _ Hi n Hn4 Hnt) as (_&_&x3&_&_&_&_&_&c9&_).
+  assert (La : a < nn s) by lia.
+  destruct (live_not_freed s a H2 La (or_introl Hn3)) as (fa & _).
+  rewrite c9 in cA, cC. cbn in cA, cC.
+  repeat split; auto.
+  - intros He. rewrite He in cA. cbn in cA. exact cA.
+  - intros Hr. rewrite Hr in cA. destruct (qempty (P s p)); auto.
+  - intros Hr m L1 L2. rewrite Hr in cC. cbn in cC. bools. destruct (N8 _ Hi) as (n8 & _).
     destruct (inch (nd s m)) eqn:Ei.
     + destruct (G3 _ Hi m Ei) as (L3 & _). destruct (Nat.eq_dec m (tail s)) as [->|ne]; [apply n8; lia|].
       exfalso. apply (x3 m Ei). lia.
@@ -206,7 +211,7 @@ Qed.
 (* The chain members ([inch]), ordered by push order, start at the stub and end at `head`; each member
    other than the stub has its chain predecessor [gpred] directly in front of it; memory agrees with the
    ghost chain: a linked member (stage 0) is linked both ways, a member whose link is still pending has a
-   null `next` in its predecessor and its producer sits between the swap and the `prev.next` store. *)
+   null `next` in its predecessor and its producer sits between the swap and the `prev.next` store (Q1, Q2, Q3). *)
 Theorem chain_shape s : Reach s ->
   inch (nd s (tail s)) = true /\ inch (nd s (head s)) = true /\ nnext (nd s (head s)) = None /\
   (forall x, inch (nd s x) = true -> tail s <= x /\ x <= head s) /\
@@ -215,7 +220,7 @@ Theorem chain_shape s : Reach s ->
      a < b /\ inch (nd s a) = true /\ (forall x, inch (nd s x) = true -> ~ (a < x /\ x < b)) /\
      (stage (nd s b) = 0 -> nnext (nd s a) = Some b /\ nprev (nd s b) = Some a) /\
      (1 <= stage (nd s b) -> nnext (nd s a) = None /\
-        exists p, qn (P s p) = b /\ qprev (P s p) = a /\ (qp (P s p) = Q1 \/ qp (P s p) = Q2))) /\
+        exists p, qn (P s p) = b /\ qprev (P s p) = a /\ (qp (P s p) = Q1 \/ qp (P s p) = Q2 \/ qp (P s p) = Q3))) /\
   (forall a x, inch (nd s a) = true -> nnext (nd s a) = Some x -> inch (nd s x) = true /\ gpred (nd s x) = a).
 Proof.
   intros R. destruct (inv_reach s R) as (Hi & H2). destruct (G2 _ Hi) as (t1 & t2 & _).
@@ -227,11 +232,11 @@ Proof.
   - destruct (NI _ Hi b H H0) as (_&_&_&_&a5&_). apply a5. lia.
   - pose proof (inch_lt _ _ Hi H) as L. destruct (R5 _ H2 b L H1) as (o1 & o2).
     pose proof (PP _ Hi (own (nd s b))) as Hp. unfold pinv in Hp. cbv zeta in Hp. rewrite o1 in Hp.
-    assert (Ha : active (P s (own (nd s b))) = true) by (unfold active; destruct o2 as [o|o]; rewrite o; reflexivity).
+    assert (Ha : active (P s (own (nd s b))) = true) by (unfold active; destruct o2 as [o|[o|o]]; rewrite o; reflexivity).
     destruct (Hp Ha) as (_&_&_&_&_&_&_&q8&_). destruct (q8 H1) as (u1 & u2 & _). rewrite u2. assumption.
   - pose proof (inch_lt _ _ Hi H) as L. destruct (R5 _ H2 b L H1) as (o1 & o2).
     pose proof (PP _ Hi (own (nd s b))) as Hp. unfold pinv in Hp. cbv zeta in Hp. rewrite o1 in Hp.
-    assert (Ha : active (P s (own (nd s b))) = true) by (unfold active; destruct o2 as [o|o]; rewrite o; reflexivity).
+    assert (Ha : active (P s (own (nd s b))) = true) by (unfold active; destruct o2 as [o|[o|o]]; rewrite o; reflexivity).
     destruct (Hp Ha) as (_&_&_&_&_&_&_&q8&_). destruct (q8 H1) as (u1 & u2 & _).
     exists (own (nd s b)). auto.
   - destruct (N6 _ Hi a x H H0) as (c1 & _). exact c1.
@@ -268,7 +273,7 @@ Qed.
 (* visibility: the consumer spins (on the stub's `next`) only while a producer that has swapped behind
    the stub has not yet executed its `prev.next` store *)
 Theorem consumer_spins_only_on_pending_store s : Reach s -> spinning (kp s) -> nnext (nd s (tail s)) = None ->
-  exists p, (qp (P s p) = Q1 \/ qp (P s p) = Q2) /\ qprev (P s p) = tail s.
+  exists p, (qp (P s p) = Q1 \/ qp (P s p) = Q2 \/ qp (P s p) = Q3) /\ qprev (P s p) = tail s.
 Proof.
   intros R Hk Hn. destruct (inv_reach s R) as (Hi & H2). destruct (G2 _ Hi) as (t1 & _).
   pose proof (K6 _ Hi Hk) as Hne.
@@ -278,7 +283,7 @@ Proof.
   { destruct (stage (nd s b)) eqn:E; [|lia]. rewrite b3 in c4. rewrite (c4 eq_refl) in Hn. discriminate. }
   pose proof (inch_lt _ _ Hi b1) as L. destruct (R5 _ H2 b L Hs) as (o1 & o2).
   pose proof (PP _ Hi (own (nd s b))) as Hp. unfold pinv in Hp. cbv zeta in Hp. rewrite o1 in Hp.
-  assert (Ha : active (P s (own (nd s b))) = true) by (unfold active; destruct o2 as [o|o]; rewrite o; reflexivity).
+  assert (Ha : active (P s (own (nd s b))) = true) by (unfold active; destruct o2 as [o|[o|o]]; rewrite o; reflexivity).
   destruct (Hp Ha) as (_&_&_&_&_&_&_&q8&_). destruct (q8 Hs) as (u1 & u2 & _).
   exists (own (nd s b)). split; auto. congruence.
 Qed.
